@@ -75,6 +75,13 @@ type Dumper struct {
 // extension statement, and their accessors have Is…Set preconditions.
 var templateAccessors = map[string]bool{"Groupings": true, "Augments": true, "Deviations": true, "Refinements": true}
 
+// attributeTypes are the statement objects a definition carries (not
+// definitions themselves). Written inside a grouping they are shared by every
+// expanded copy of their owner and keep naming the statement in the grouping
+// body as their parent, so their Parent() is a way into an unexpanded template.
+var attributeTypes = map[string]bool{"*meta.Extension": true, "*meta.IfFeature": true, "*meta.Must": true, "*meta.When": true,
+	"*meta.Type": true, "*meta.Enum": true, "*meta.Bit": true, "*meta.Range": true, "*meta.Pattern": true}
+
 func New() *Dumper {
 	d := &Dumper{seen: map[uintptr]int{}, MaxObjs: 200000, pkgPrefix: "github.com/freeconf/yang/"}
 	d.b.keep = true
@@ -298,7 +305,7 @@ func (d *Dumper) call(v reflect.Value, i int, name string, depth int) {
 			d.b.WriteString("<panic>")
 		}
 	}()
-	if templateAccessors[name] {
+	if templateAccessors[name] || (name == "Parent" && attributeTypes[v.Type().String()]) {
 		d.inTemplate++
 		defer func() { d.inTemplate-- }()
 	}
